@@ -214,13 +214,14 @@ def run_check(chk, rng, replay, prop, modules, focus, n_quick, n_thorough, own_t
     if replay is not None:
         items = [(replay["desc"], replay.get("inject"), 120)]
     else:
-        items = [(c["desc"], c.get("inject"), 120) for c in corpus.load(prop, shared=True)]
         n = n_quick if chk.tier == "quick" else n_thorough
-        items += gen_items(rng, n, focus, p_inject=p_inject)
+        items = gen_items(rng, n, focus, p_inject=p_inject)
         # a share of runs from the generic mix so that every run-level check sees every kind of run
         items += gen_items(rng, max(20, n // 5), "general", p_inject=p_inject)
         if tweak is not None:
             items = [(tweak(d, rng), inj, t) for d, inj, t in items]
+        # the hand-written boundary problems and minimised past failures run first and AS THEY ARE
+        items = [(c["desc"], c.get("inject"), 120) for c in corpus.load(prop, shared=True)] + items
     summaries = record_many(items)
     verdicts = classify(summaries)
     stat = collections.Counter()
